@@ -61,6 +61,8 @@ def signature(t):
         sig.update(pre=what[1])
     elif what[0] in ("other-doc-changed", "readers-disagree", "purge"):
         sig.update(where=what[1])
+    elif what[0] == "aux":
+        sig.update(aux=what[1])
     return sig
 
 
@@ -120,7 +122,7 @@ def execute(run, vh, paths, mode, workers=16):
     pfile = os.path.join(run, "paths.json")
     json.dump(paths, open(pfile, "w"))
     trace = os.path.join(run, "trace.ndjson")
-    rc, out = sh([vh, "seq", "-in", pfile, "-out", trace, "-mode", mode, "-workers", str(workers),
+    rc, out = sh([vh, "seq", "-in", pfile, "-out", trace, "-mode", mode, "-aux", "-workers", str(workers),
                   "-scratch", os.path.join(run, "buckets")], timeout=3600)
     os.makedirs(os.path.join(run, "buckets"), exist_ok=True)
     m = re.search(r"SEQ paths=(\d+) lines=(\d+) errors=(\d+)", out)
